@@ -106,6 +106,7 @@ def run_property(prop, tier, jobs):
     vacuous = []
     disagreements = []
     solver_time = 0.0
+    cross = {'cvc5': {}, 'z3_4.8.12': {}}
     per_fn = []
     samples = []
     assumed = set()
@@ -129,6 +130,9 @@ def run_property(prop, tier, jobs):
                     failing.append((r, ob))
                 continue
             n += 1
+            for key, tag in (('cvc5', 'cvc5'), ('z3old', 'z3_4.8.12')):
+                if ob.get(key):
+                    cross[tag][ob[key]] = cross[tag].get(ob[key], 0) + 1
             ok = ob['result'] in ('unsat', 'trivial')
             if not ok and tier == 'thorough' and 'unsat' in (ob.get('cvc5'), ob.get('z3old')):
                 ok = True      # portfolio: another solver proves it
@@ -255,6 +259,7 @@ def run_property(prop, tier, jobs):
             'back_end': 'z3 %s python API, e-matching (mbqi off) with mbqi retry%s' % (
                 _z3v(), '; cvc5 1.0.3 + z3 4.8.12 cross-check on SMT-LIB' if tier == 'thorough' else ''),
             'solver_time_s': round(solver_time, 2),
+            'cross_check_verdicts': cross if tier == 'thorough' else None,
             'tool_limits': [{'function': f, 'reason': t} for f, t in tool_limits],
             'lean_lemma': lemma_note,
             'engine_selftest': selftest_note,
